@@ -105,13 +105,18 @@ func runGate(c Case) interface{} {
 			g.mu.Unlock()
 		}()
 	}
+	timedOut := false
 	observe := func(expectInside, expectFinished int) J {
-		deadline := time.Now().Add(3 * time.Second)
+		deadline := time.Now().Add(2 * time.Second)
 		for {
 			g.mu.Lock()
 			ni, nf := len(g.inside), len(g.finished)
 			g.mu.Unlock()
-			if (ni == expectInside && (expectFinished < 0 || nf == expectFinished)) || time.Now().After(deadline) {
+			if ni == expectInside && (expectFinished < 0 || nf == expectFinished) {
+				break
+			}
+			if time.Now().After(deadline) {
+				timedOut = true // the expected occupancy was not reached: the observation is recorded and the history ends here
 				break
 			}
 			time.Sleep(200 * time.Microsecond)
@@ -213,7 +218,11 @@ func runGate(c Case) interface{} {
 		_ = expectFinished
 		ob := observe(expIn, -1)
 		obs = append(obs, ob)
+		if timedOut {
+			break
+		}
 	}
+	aborted := timedOut
 	// drain: release everything still inside, cancel everything still waiting
 	for round := 0; round < 50; round++ {
 		g.mu.Lock()
@@ -241,7 +250,7 @@ func runGate(c Case) interface{} {
 	drained := true
 	select {
 	case <-done:
-	case <-time.After(5 * time.Second):
+	case <-time.After(3 * time.Second):
 		drained = false
 	}
 	// after the history: N fresh renders must be admitted simultaneously (no slot leaked)
@@ -263,7 +272,9 @@ func runGate(c Case) interface{} {
 			g.mu.Unlock()
 			ch <- "success"
 		}
-		wg.Wait()
+		if fresh == n {
+			wg.Wait()
+		}
 	}
 	g.mu.Lock()
 	fin := J{}
@@ -271,7 +282,7 @@ func runGate(c Case) interface{} {
 		fin[fmt.Sprint(k)] = v
 	}
 	g.mu.Unlock()
-	return J{"class": "ok", "obs": obs, "drained": drained, "fresh_admitted": fresh, "final": fin}
+	return J{"class": "ok", "obs": obs, "drained": drained, "fresh_admitted": fresh, "final": fin, "aborted": aborted}
 }
 
 func containsStr(s, sub string) bool {
